@@ -107,11 +107,29 @@ def main():
     barrier = threading.Barrier(nthreads)
     sys.setswitchinterval(1e-6)
 
+    # one round per function, the focus function first: before each round the threads meet on the barrier again, so that EVERY
+    # function gets its very first calls of the process from all threads at the same moment (the calls of a round are the
+    # recorded calls of that function, each thread starting at another one)
+    fi = names.index(fname)
+    rounds = []
+    for nm_ in names[fi:] + names[:fi]:
+        grp = [c for c in calls if c[4] == nm_]
+        if grp:
+            rounds.append(grp)
+
     def work(t):
-        seq = first[t % len(first):] + first[:t % len(first)] + rest[t::nthreads][:200]
         if ambient:
             np.set_printoptions(**AMBIENT)   # numpy >= 2 keeps the options per context: a new thread starts from the defaults
-        barrier.wait()
+        for grp in rounds:
+            try:
+                barrier.wait(timeout=60)
+            except threading.BrokenBarrierError:
+                return
+            if run_seq(t, grp[t % len(grp):] + grp[:t % len(grp)]):
+                barrier.abort()
+                return
+
+    def run_seq(t, seq):
         for fn, a, k, want, nm in seq:
             try:
                 r = ("ok", fn(*a, **k))
@@ -124,7 +142,8 @@ def main():
                 got = repr(r)
             if got != want:
                 bad.append({"function": nm, "args": repr(a)[:200], "alone": want[:200], "cold_concurrent": got[:200]})
-                return
+                return True
+        return False
 
     ths = [threading.Thread(target=work, args=(t,)) for t in range(nthreads)]
     for th in ths:
